@@ -106,6 +106,9 @@ def run_case(driver, seed, part, i, res, forced=None):
     # a caller in keep-trying mode hands the driver a frame the gateway cannot carry: refused at once, lock untouched
     unsupported = driver in ("tridonic", "hasseb") and forced is None and r.random() < 0.2
     early = forced is None and r.random() < 0.25
+    # SCI gateway on a busy bus: the status report of one frame comes after the driver's confirmation timeout.  The caller of
+    # that frame may fail loudly (TimeoutError); nothing is written that nobody asked for, everybody completes
+    slow_confirm = driver == "sci" and forced is None and not loss and r.random() < 0.2
     extra = {}
     # loud: send() reports the loss to its caller (CommunicationError) instead of retrying - the lock must be given up all the same
     loud = loss and r.random() < 0.35
@@ -124,7 +127,10 @@ def run_case(driver, seed, part, i, res, forced=None):
         c = ra.random()
         return None if c < 0.2 else (("ok", ra.getrandbits(8)) if c < 0.7 else ("collision", ra.getrandbits(8)))
 
-    sim = simlib.Sim(driver, picker, answer=answer, hid_kwargs={"reconnect_interval": 0.5} if loss else None)
+    n_losses = r.choice([1, 1, 2, 3]) if loss else 0
+    loss_shape = r.choice(["gone", "gone", "eagain"]) if loss else None
+    limit_ = r.choice([None, None, 1, 2]) if loss and loss_shape == "gone" else None
+    sim = simlib.Sim(driver, picker, answer=answer, hid_kwargs={"reconnect_interval": 0.5, "reconnect_limit": limit_} if loss else None)
     outcome = {}
     gens = {}
     progress_log = {}
@@ -205,11 +211,29 @@ def run_case(driver, seed, part, i, res, forced=None):
             extra["early_lock_left_held"] = d0.transaction_lock.locked()
             extra["early_wire"] = len(sim.bus.wire)
         await sim.connect()
+        t0_ = sim.world.now
         if loss:
             sim.driver.exceptions_on_send = loud
-            sim.world.at(sim.world.now + t_loss, lambda: sim.dev.lose(r.choice(["eof", "oserror"])))
-            sim.world.at(sim.world.now + t_loss + 0.3, sim.dev.restore)
+            if loss_shape == "eagain":
+                # the device's output queue is full for a while: writes fail with BlockingIOError, reads go on
+                def block():
+                    sim.dev.blocked_until = sim.world.now + r.choice([0.02, 0.2, 0.7])
+                sim.world.at(sim.world.now + t_loss, block)
+                res.hit("write_would_block_runs")
+            else:
+                # one to three drops; every reconnection succeeds at its first attempt, so a limit of 1 or 2 is never used up
+                for n_ in range(n_losses):
+                    sim.world.at(sim.world.now + t_loss + 1.9 * n_, lambda: sim.dev.lose(r.choice(["eof", "oserror"])))
+                    sim.world.at(sim.world.now + t_loss + 1.9 * n_ + 0.3, sim.dev.restore)
+                if n_losses > 1:
+                    res.hit("repeated_loss_runs")
         tasks = []
+        if slow_confirm:
+            cmds_ = [x for spec in callers for (what, x) in spec["items"] if what == "cmd"]
+            if cmds_:
+                tgt = r.choice(cmds_)
+                sim.dev.late_confirms[(len(tgt.frame), tgt.frame.as_integer)] = r.choice([0.105, 0.13, 0.2, 0.35])
+                res.hit("slow_confirmation_runs")
         if noise:
             sim.world.at(sim.world.now + t_noise, lambda: sim.dev.send_whole(0, b"\x59"))
             res.hit("noise_runs")
@@ -251,6 +275,18 @@ def run_case(driver, seed, part, i, res, forced=None):
                     extra["unsupported"] = type(e).__name__
             tasks.append(asyncio.ensure_future(refused()))
             res.hit("unsupported_in_keep_trying_mode")
+        if loss and not unsupported and getattr(sim.driver, "_send_raw", None) is not None:
+            # the same monitor for every command while the gateway misbehaves: a command offered to the transmit routine
+            # hundreds of times within one send() is a loop that never yields (the virtual clock cannot see it)
+            orig_raw2 = sim.driver._send_raw
+            seen_ = {}
+
+            async def counted2(cmd, *a, **kw):
+                seen_[id(cmd)] = seen_.get(id(cmd), 0) + 1
+                if seen_[id(cmd)] > 500:
+                    raise Spin()
+                return await orig_raw2(cmd, *a, **kw)
+            sim.driver._send_raw = counted2
         for c, spec in enumerate(callers):
             t = vloop.CountingTask(body(c, spec), loop=asyncio.get_running_loop(), cancel_at=spec["cancel_at"])
             if spec["cancel_time"] is not None:
@@ -261,6 +297,18 @@ def run_case(driver, seed, part, i, res, forced=None):
                 done = await asyncio.wait_for(asyncio.gather(*tasks, return_exceptions=True), 30.0)
             except asyncio.TimeoutError:
                 return "callers-not-finished-after-reconnect"
+            # a caller that arrives after the last drop has been repaired
+            t_end = t0_ + t_loss + 1.9 * max(n_losses - 1, 0) + 0.3 + 1.2
+            await asyncio.sleep(max(0.0, t_end - sim.world.now))
+            from dali.gear.general import QueryStatus as _QS2
+            from dali import address as _A3
+            try:
+                await asyncio.wait_for(sim.driver.send(_QS2(_A3.GearShort(62))), 10.0)
+            except (asyncio.TimeoutError, TimeoutError):
+                return "caller-after-the-last-drop-never-completes"
+            except Exception as e:
+                if not loud:
+                    return f"caller-after-the-last-drop-raised-{type(e).__name__}"
         else:
             done = await asyncio.gather(*tasks, return_exceptions=True)
         if unsupported:
@@ -343,7 +391,8 @@ def run_case(driver, seed, part, i, res, forced=None):
             cancelled = spec["cancel_at"] is not None or spec["cancel_time"] is not None
             abnormal = cancelled or spec["raise_at"] is not None or spec["badclean"] is not None
             res.hit("units_checked", len(units))
-            if completed or spec["raise_at"] is not None:
+            timed_out = slow_confirm and isinstance(outcome.get(c), (asyncio.TimeoutError, TimeoutError))
+            if (completed or spec["raise_at"] is not None) and not timed_out:
                 ok = mine == expected
             else:
                 ok = mine == expected[:len(mine)]
@@ -367,7 +416,7 @@ def run_case(driver, seed, part, i, res, forced=None):
             # outcome of the caller
             if spec["raise_at"] is not None and not cancelled and spec["badclean"] is None:
                 res.hit("raising_sequences")
-                if not isinstance(outcome.get(c), Boom):
+                if not isinstance(outcome.get(c), Boom) and not timed_out:
                     res.violation(f"C15/{driver}/sequence-exception-lost", f"the sequence raised Boom but the caller got {outcome.get(c)!r}", {**wit, "caller": c})
             if cancelled:
                 res.hit("cancelled_callers")
@@ -423,6 +472,9 @@ def run_case(driver, seed, part, i, res, forced=None):
                     continue
                 if noise and key == "TimeoutError":
                     res.add("noise_reported_to_caller")
+                    continue
+                if slow_confirm and key == "TimeoutError":
+                    res.add("slow_confirmation_reported_to_caller")
                     continue
                 if callers[c]["cancel_at"] is None and callers[c]["cancel_time"] is None and callers[c]["badclean"] is None:
                     res.violation(f"C15/{driver}/caller-raised/{key}", f"caller {c} ({callers[c]['kind']}) raised {key}: {x}", {**wit, "caller": c, "tb": short_tb(x)})
